@@ -599,6 +599,26 @@ def add_dispatch_generator(pack):
     c.replay(lambda m, ctx, ob: METHOD_RECUR_REPLAY)
     c.replay_without_model = True
 
+    def partial_signature_bounded(tier, seed):
+        import os
+
+        from pyvc.run import REPLAY_DIR, run_snippet
+
+        p_ = os.path.join(REPLAY_DIR, "C08", "partial_signature_bounded.py")
+        failed, outp = run_snippet("# bounded check for property C08\n# function: basilisp.lang.runtime:_update_signature_for_partial\n" + PARTIAL_BOUNDED, p_)
+        ran = "cases 384" in outp
+        rec = {"name": "[bounded: arities drawn from {0..4, :rest}, 0 <= num_args <= 5, 384 cases] a partial's arities and the number of parameters its apply_to peels off "
+                       "an applied sequence are those of the remaining parameters",
+               "kind": "bounded", "bounded": True, "line": 0, "time_s": 0.0, "backend": "concrete execution of the real function",
+               "verdict": "refuted" if failed else ("bounded-ok" if ran else "unknown")}
+        if failed:
+            rec.update(replay=p_, reproduced=True, replay_output=outp[-1500:], model={})
+        return [{"key": "bounded:basilisp.lang.runtime:_update_signature_for_partial", "file": "src/basilisp/lang/runtime.py", "lines": [0, 0], "error": None if (ran or failed) else "the bounded check did not run: " + outp[-300:],
+                 "obligations": [rec], "extra": True, "bounded": True, "bound": "arities drawn from {0..4, :rest}, 0 <= num_args <= 5", "cases": 384,
+                 "result": "a case fails" if failed else "all cases agree with the spec", "time_s": 0.0}]
+
+    pack.extra.append(partial_signature_bounded)
+
     c = pack.contract("basilisp.lang.compiler.generator:__fn_decorator")
     c.param_value("arities", lambda eng, st: [1, 3])
     c.param_value("has_rest_arg", lambda eng, st: True)
@@ -616,6 +636,49 @@ def add_dispatch_generator(pack):
                       V.is_ref(fld_(k1, "value")), V.cls_of(V.Val.a(fld_(k1, "value"))) == a.eng.class_id(_ast.Constant), fld_(fld_(k1, "value"), "value") == MFA)
 
     c.ensures("the emitted call is _basilisp_fn(arities=..., max_fixed_arity=<that number>)", deco_post)
+
+
+PARTIAL_BOUNDED = r'''
+# bounded stand-in for runtime._update_signature_for_partial (a loop over a symbolic set and max() over a filtered generator keep it
+# outside the executor): the real function is run for every set of arities drawn from {0..4, :rest} and every 0 <= num_args <= 5 and
+# compared with the spec: the partial accepts a - n arguments for every fixed arity a > n (0 if only a = n matched), keeps :rest, and its
+# apply_to peels off exactly the largest *new* fixed arity - the number of parameters still to bind - from an applied sequence
+import itertools
+from basilisp.lang import runtime as rt, keyword as kw, set as lset
+REST = kw.keyword("rest")
+bad, cases = [], 0
+real = rt._fn_apply_to
+for k in range(0, 7):
+    for arities in itertools.combinations([0, 1, 2, 3, 4, REST], k):
+        for n in range(0, 6):
+            cases += 1
+            seen = {}
+            def spy(f, ars, max_fixed_arity=None, _seen=seen):
+                _seen["arities"], _seen["mfa"] = set(ars), max_fixed_arity
+                return real(f, ars, max_fixed_arity=max_fixed_arity)
+            def f(*a):
+                return a
+            f.arities = lset.set(arities)
+            f.__name__ = "f"
+            rt._fn_apply_to = spy
+            try:
+                import logging
+                logging.disable(logging.CRITICAL)
+                rt._update_signature_for_partial(f, n)
+            finally:
+                rt._fn_apply_to = real
+                logging.disable(logging.NOTSET)
+            want = {a - n for a in arities if a is not REST and a > n} | ({REST} if REST in arities else set())
+            if not want and n in arities:
+                want = {0}
+            want_mfa = max((a for a in want if a is not REST), default=0)
+            if set(f.arities) != want or seen.get("arities") != want or seen.get("mfa") != want_mfa:
+                bad.append("arities %r, %d stored argument(s): the partial has arities %r and peels %r, expected %r and %r" % (sorted(map(str, arities)), n, sorted(map(str, f.arities)), seen.get("mfa"), sorted(map(str, want)), want_mfa))
+print("cases", cases)
+for line in bad[:8]:
+    print(line)
+print("REPRODUCED" if bad else "not reproduced")
+'''
 
 
 METHOD_RECUR_REPLAY = r'''
